@@ -28,6 +28,12 @@ search       point x the grammar under sys.addaudithook; kernel-judged locations
              directory), and the same handle uses the string again; every use is judged against the arrangement
              current at that use (pathaudit.run_history), and differentially against the stateless model
              (hist-resolve / hist-arrow / hist-listing).
+             OBJECT STORE: S3StorageBackend over an in-memory client (harness/lib/mems3.py), 5 prefix configurations
+             (two-level, trailing slash, one level, three levels, none), conditional writes on / off, 17 entry points
+             x the path grammar ('..', '.', '', absolute, sibling-prefix names): every request key / listing Prefix
+             must be the table prefix or below it (opaque, component-wise), objects outside the prefix keep their
+             content, a listing returns existing keys below the prefix (oracle_s3); real _get_s3_key / listing
+             Prefix vs Gen/GenS3.v (s3-keys).
 """
 from __future__ import annotations
 
@@ -57,11 +63,14 @@ THEOREMS = [
     "C17_entrypoints",
     "C17_history_inside",
     "C17_history_stateless",
+    "C17_s3_key_under_prefix",
+    "C17_s3_list_prefix_under_prefix",
     "C17_fuel_sufficient",
     "C17_legacy_resolver_refuted",
 ]
 REQ = ["DS.Model.Path", "DS.Gen.GenPath"]
-GEN_FILES = ["GenPath.v"]
+REQ_S3 = ["DS.Model.Str", "DS.Gen.GenS3"]
+GEN_FILES = ["GenPath.v", "GenS3.v"]
 
 MANIFEST_ENTRY = {
     "level_text": "Coq theorems, for EVERY symlink tree (loops included), base spelling, working directory, path string and fuel: "
@@ -75,7 +84,9 @@ MANIFEST_ENTRY = {
                   "directories at or below it -- never through a directory link, inward or outward (C17_listing_scans_inside); every entry point of the table "
                   "regenerated from the source hands the OS only its guard's result or that result's parent (C17_entrypoints), also at "
                   "every step of a history in which the arrangement changes between uses of one handle -- a handle carries no "
-                  "validated-path state (C17_history_inside, C17_history_stateless); "
+                  "validated-path state (C17_history_inside, C17_history_stateless); on the object-store backend every request key and "
+                  "listing Prefix is the configured prefix + '/' + the path's bytes verbatim, hence under the table prefix, for every "
+                  "string (C17_s3_key_under_prefix, C17_s3_list_prefix_under_prefix, over Gen/GenS3.v regenerated from the source); "
                   "commonpath containment is component-wise prefix (C17_commonpath_prefix); fuel = number of links suffices "
                   "(C17_fuel_sufficient); the resolver as found is refuted by a concrete tree (C17_legacy_resolver_refuted). Model tied "
                   "to the code by golden-shape / taint translation of the guards and by differential execution against real symlink "
@@ -581,6 +592,223 @@ def corr_history(ctx) -> None:
     shutil.rmtree(top, ignore_errors=True)
 
 
+# ------------------------------------------------------------------------------------------ oracle: the object-store backend
+S3_PREFIXES = ["wh/t", "wh/t/", "t", "team/wh/t", ""]
+S3_COMPONENTS = ["..", ".", "", "data", "metadata", "x", "t2", "f.parquet"]
+
+
+def s3_objects(prefix: str) -> Dict[str, bytes]:
+    """Bucket content: the table's own keys, a sibling table whose name has the table's name as a string prefix, keys one and two
+    levels above the table prefix, the bucket root, and keys spelled with literal '..' segments (S3 keys are opaque strings)."""
+    pre = prefix.rstrip("/")
+    comps = [c for c in pre.split("/") if c]
+    objs: Dict[str, bytes] = {}
+    own = (pre + "/") if pre else ""
+    for k in ("data/f.parquet", "data/sub/g.parquet", "metadata/m.json", "metadata/inflight/a.inflight", "x"):
+        objs[own + k] = b"OWN:" + k.encode()
+    sib = "/".join(comps[:-1] + [comps[-1] + "2"]) if comps else "t2"
+    for k in ("data/f.parquet", "data/x", "secret.txt", "x", "metadata/m.json"):
+        objs[sib + "/" + k] = b"SIBLING:" + k.encode()
+    for up in range(0, len(comps)):
+        objs["/".join(comps[:up] + ["secret.txt"])] = b"ABOVE"
+        objs["/".join(comps[:up] + ["data", "f.parquet"])] = b"ABOVE-DATA"
+    objs["etc/passwd"] = b"ROOT"
+    objs["secret.txt"] = b"BUCKET-ROOT"
+    return objs
+
+
+def s3_under(prefix: str, key: str) -> bool:
+    """Component-wise, on the opaque key string: the table prefix itself or something below it."""
+    pre = prefix.rstrip("/")
+    return pre == "" or key == pre or key.startswith(pre + "/")
+
+
+def s3_entry_points() -> Dict[str, Callable[[Any, str], Any]]:
+    def lock(b: Any, p: str) -> Any:
+        lk = b.create_lock(p, timeout=0.0)
+        got = False
+        try:
+            got = lk.acquire()
+        finally:
+            if got:
+                lk.release()
+        return got
+
+    def cas(b: Any, p: str) -> Any:
+        try:
+            _body, etag = b.read_file_with_etag(p)
+        except Exception:                       # noqa: BLE001
+            etag = None
+        return b.write_file_cas(p, b"CAS", etag)
+
+    def via_dfm(name: str) -> Callable[[Any, str], Any]:
+        def go(b: Any, p: str) -> Any:
+            from datashard.data_operations import DataFileManager
+            dfm = DataFileManager.__new__(DataFileManager)
+            dfm.storage, dfm.file_manager, dfm._arrow_schema_cache, dfm._pyarrow_fs = b, None, {}, None
+            for attr in ("_arrow_path_cache",):
+                setattr(dfm, attr, {})
+            if name == "read_data_file":
+                return dfm.read_data_file(p)
+            with dfm.open_parquet_source(p) as f:
+                return f.read(4)
+        return go
+
+    return {
+        "read_file": lambda b, p: b.read_file(p),
+        "read_file_with_etag": lambda b, p: b.read_file_with_etag(p),
+        "read_json": lambda b, p: b.read_json(p),
+        "open_file": lambda b, p: b.open_file(p).read(4),
+        "open_seekable": lambda b, p: b.open_seekable(p).read(4),
+        "write_file": lambda b, p: b.write_file(p, b"WRITTEN"),
+        "write_json": lambda b, p: b.write_json(p, {"w": 1}),
+        "write_file_cas": cas,
+        "exists": lambda b, p: b.exists(p),
+        "list_files": lambda b, p: b.list_files(p),
+        "delete_file": lambda b, p: b.delete_file(p),
+        "makedirs": lambda b, p: b.makedirs(p),
+        "get_size": lambda b, p: b.get_size(p),
+        "get_modified_time": lambda b, p: b.get_modified_time(p),
+        "create_lock": lock,
+        "dfm.read_data_file": via_dfm("read_data_file"),
+        "dfm.open_parquet_source": via_dfm("open_parquet_source"),
+    }
+
+
+def s3_case(entry: str, prefix: str, conditional: bool, p: str) -> Tuple[str, List[Dict[str, Any]]]:
+    """One call on a fresh in-memory bucket.  Judged on the REQUESTS the client received (every key / listing Prefix must be the
+    table prefix or below it, component-wise, or no request at all), on the objects outside the prefix (unchanged), and on what a
+    listing returns (existing keys below the prefix)."""
+    from harness.lib import mems3
+    client = mems3.MemS3(lambda: 1_700_000_000_000)
+    before = s3_objects(prefix)
+    for k, v in before.items():
+        client._put(k, v)
+    b = mems3.make_s3_backend(client, prefix=prefix, conditional=conditional)
+    fn = s3_entry_points()[entry]
+    client.requests.clear()
+    status, val = bounded.get_guard().run(f"s3:{entry}({p!r})", {"rule": "runaway", "entry": "s3:" + entry, "path": p, "s3_prefix": prefix,
+                                                                  "conditional": conditional}, lambda: fn(b, p))
+    problems: List[Dict[str, Any]] = []
+    common = {"entry": "s3:" + entry, "path": p, "s3_prefix": prefix, "conditional": conditional, "base": "s3", "arrangement": "in-memory bucket"}
+    if status == "runaway":
+        problems.append({"rule": "runaway", "outcome": "runaway", "why": val, "os_calls_before_the_limit": len(client.requests), **common})
+        outcome = "runaway"
+    else:
+        outcome = "ok" if status == "ok" else pathaudit.classify_exc(val)
+    foreign = [(op, key) for op, key in client.requests if not s3_under(prefix, key)]
+    if foreign:
+        problems.append({"rule": "s3key", "outcome": outcome, "requests_outside_prefix": foreign[:4], **common})
+    changed = []
+    for k, v in before.items():
+        if not s3_under(prefix, k):
+            o = client.objects.get(k)
+            if o is None or o["body"] != v:
+                changed.append(k)
+    changed += [k for k in client.objects if k not in before and not s3_under(prefix, k)]
+    if changed:
+        problems.append({"rule": "s3sentinel", "outcome": outcome, "objects_outside_prefix_changed": sorted(changed)[:4], **common})
+    if entry == "list_files" and status == "ok" and isinstance(val, list):
+        pre = prefix.rstrip("/")
+        bad = [r for r in val if not isinstance(r, str) or ((pre + "/" + r) if pre else r) not in client.objects
+               or not s3_under(prefix, (pre + "/" + r) if pre else r) or r.startswith("/")]
+        if bad:
+            problems.append({"rule": "s3listed", "outcome": outcome, "returned_not_below_prefix": bad[:4], **common})
+    return outcome, problems
+
+
+def report_s3(ctx, problems: List[Dict[str, Any]]) -> None:
+    for pr in problems:
+        detail = pr.get("requests_outside_prefix") or pr.get("objects_outside_prefix_changed") or pr.get("returned_not_below_prefix") or pr.get("why")
+        what = {"s3key": "sent requests for keys outside the table prefix", "s3sentinel": "changed objects outside the table prefix",
+                "s3listed": "returned names that are not keys below the table prefix", "runaway": "did not return"}[pr["rule"]]
+        ctx.violation(f"{pr['rule']}:{pr['entry']}",
+                      f"S3 backend with prefix {pr['s3_prefix']!r}: {pr['entry'][3:]}({pr['path']!r}) {what}: {detail} (outcome {pr['outcome']})", pr)
+
+
+def oracle_s3(ctx) -> None:
+    """The object-store backend under the path grammar: S3StorageBackend over an in-memory client, with and without a configured
+    prefix, conditional writes on / off, every storage entry point (and the parquet read path for a tampered manifest entry)."""
+    import datashard.s3_consistency as s3c
+    quick = ctx.tier == "quick"
+    strings = ["", ".", "/", "..", "../t2/data/x", "../../secret.txt", "../t2/secret.txt", "data/../../t2/data/f.parquet", "/../t2/x", "//wh/t2/x",
+               "/wh/t2/secret.txt", "wh/t2/secret.txt", "../t/data/f.parquet", "data/./f.parquet", "data//f.parquet", "../../../etc/passwd",
+               "/etc/passwd", "data/..", "data/../..", "../t2", "../t2/", "../", "metadata/../../secret.txt", "x/../../t2/x", "./../t2/x"]
+    g = pathfs.grammar(3, S3_COMPONENTS)
+    strings += g if not quick else pathfs.grammar(2, S3_COMPONENTS) + ctx.rng.sample(g, 60)
+    strings = list(dict.fromkeys(strings))
+    real_sleep = s3c.time.sleep
+    outcomes: collections.Counter = collections.Counter()
+    brk = Breaker()
+    shrunk: set = set()
+    n = 0
+    try:
+        s3c.time.sleep = lambda _s: None          # retry back-off is virtual here (C20 checks the retry policy)
+        for prefix in S3_PREFIXES:
+            for conditional in ((True,) if quick and prefix != "wh/t" else (True, False)):
+                for entry in s3_entry_points():
+                    for p in (strings if prefix in ("wh/t", "t") or not quick else strings[::4]):
+                        if brk.tripped(entry):
+                            continue
+                        outcome, problems = s3_case(entry, prefix, conditional, p)
+                        brk.note(entry, outcome)
+                        n += 1
+                        ctx.count(1, ("s3", prefix, conditional, entry, p))
+                        outcomes[f"{entry}:{outcome}"] += 1
+                        if problems and entry not in shrunk:
+                            shrunk.add(entry)
+                            rules = {pr["rule"] for pr in problems}
+                            best, improved = p, True
+                            while improved:
+                                improved = False
+                                comps = best.split("/")
+                                for i in range(len(comps)):
+                                    cand = "/".join(comps[:i] + comps[i + 1:])
+                                    if cand == best:
+                                        continue
+                                    _o, prs = s3_case(entry, prefix, conditional, cand)
+                                    prs = [pr for pr in prs if pr["rule"] in rules]
+                                    if prs and _o == outcome:       # keep the symptom's strength (a read that SUCCEEDS stays one)
+                                        best, problems, improved = cand, prs, True
+                                        break
+                            for pr in problems:
+                                pr["shrunk_from"] = p
+                        report_s3(ctx, problems)
+    finally:
+        s3c.time.sleep = real_sleep
+    ctx.stats["audit_s3_calls"] = n
+    ctx.stats["audit_s3_outcomes"] = dict(sorted(outcomes.items()))
+    ctx.sample({"s3_case": {"prefix": S3_PREFIXES[0], "entry": "read_file", "path": strings[4]}})
+
+
+def corr_s3_keys(ctx) -> None:
+    """Real _get_s3_key and the Prefix= a real list_files sends  vs  Gen/GenS3.v (regenerated) on the path grammar."""
+    from harness.lib import mems3
+    from harness.lib.coqio import coq_string
+    strings = ["", "/", "..", "../t2/data/x", "//etc/passwd", "data/", "../", "data//x/"] + pathfs.grammar(2 if ctx.tier == "quick" else 3, S3_COMPONENTS)
+    strings = [s_ for s_ in dict.fromkeys(strings) if all(32 <= ord(ch) < 127 and ch != '"' for ch in s_)]
+    exprs, impl, meta = [], [], []
+    for prefix in S3_PREFIXES:
+        client = mems3.MemS3(lambda: 0)
+        b = mems3.make_s3_backend(client, prefix=prefix)
+        for p in strings:
+            st, key = bounded.get_guard().run("_get_s3_key", {"entry": "s3:exists", "path": p, "s3_prefix": prefix}, lambda: b._get_s3_key(p))
+            client.requests.clear()
+            st2, _ = bounded.get_guard().run("list_files", {"entry": "s3:list_files", "path": p, "s3_prefix": prefix}, lambda: b.list_files(p))
+            lp = next((k for op, k in client.requests if op == "list_objects_v2"), None)
+            impl.append((key if st == "ok" else ("other", st), lp if st2 == "ok" else ("other", st2)))
+            pre_c, p_c = coq_string(b.prefix), coq_string(p)
+            exprs.append(f"(string_of_list_ascii (gen_get_s3_key (lit {pre_c}) (lit {p_c})), string_of_list_ascii (gen_list_prefix (lit {pre_c}) (lit {p_c})))")
+            meta.append((prefix, p))
+    got = coqbuild.coq_eval(REQ_S3, exprs, chunk=400)
+    bad = []
+    for (prefix, p), im, g in zip(meta, impl, got):
+        ctx.count(1, ("s3-keys", prefix, p))
+        if tuple(g) != tuple(im):
+            bad.append({"s3_prefix": prefix, "path": p, "impl": repr(im), "model": repr(g)})
+    ctx.correspondence("s3-keys", len(meta), bad)
+
+
 STRACE_DRIVER = r"""
 import os, sys
 ws, verif = sys.argv[1], sys.argv[2]
@@ -940,7 +1168,8 @@ def run(ctx) -> None:
                 "every library call runs under a time limit, a memory limit and a hard limit (harness/lib/bounded.py); a case is "
                 "distinct by (arrangement, entry point, root spelling, string); histories: (handle kind) x (first-use entry point) x "
                 "(6 arrangement changes) x (second-use entry point) x affected strings x root spelling on ONE long-lived handle, plus "
-                "change / change-again sequences")
+                "change / change-again sequences; object store: 5 key-prefix configurations x conditional writes on/off x 17 entry points x "
+                "the path grammar over an in-memory bucket holding sibling-prefix, ancestor-level and bucket-root objects")
     ctx.trusted_base += [
         "translator/gen_path.py (golden AST shapes of canonical_path, _resolve_path, _get_arrow_path, list_files' guard, write guards; regenerated constants)",
         "Model/Path.v's rendering of CPython 3.12 posixpath.realpath/_joinrealpath/commonpath/relpath/join and of the kernel path walk "
@@ -979,6 +1208,7 @@ def run(ctx) -> None:
     staged('audit_acyclic', lambda: oracle_acyclic(ctx, 2 if quick else 3))
     staged('audit_table', lambda: oracle_table(ctx, table_strings))
     staged('audit_history', lambda: oracle_history(ctx))
+    staged('audit_s3', lambda: oracle_s3(ctx))
     staged('strace', lambda: oracle_strace(ctx))
     ctx.stats["audit_strings_storage"] = len(audit_strings)
     ctx.stats["audit_strings_table"] = len(table_strings)
@@ -988,6 +1218,7 @@ def run(ctx) -> None:
         staged('corr_standard', lambda: corr_paths(ctx, corr_strings))
         staged('corr_acyclic', lambda: corr_paths(ctx, pathfs.grammar(2 if quick else 3, pathfs.ACYCLIC_COMPONENTS), arrangement="acyclic"))
         staged('corr_history', lambda: corr_history(ctx))
+        staged('corr_s3_keys', lambda: corr_s3_keys(ctx))
         staged('corr_entries', lambda: corr_entries(ctx, obs_ws, obs, 3))
         staged('corr_random', lambda: corr_random_trees(ctx, 60 if quick else 400, 25))
     except RuntimeError as e:
@@ -1013,6 +1244,16 @@ def replay(ctx, payload) -> int:
         return 2
     install_guard(ctx)
     warm_up()
+    if str(case.get("entry", "")).startswith("s3:"):
+        import datashard.s3_consistency as s3c
+        s3c.time.sleep = lambda _s: None
+        outcome, problems = s3_case(case["entry"][3:], case["s3_prefix"], bool(case.get("conditional", True)), case["path"])
+        print(f"replay: S3 backend prefix={case['s3_prefix']!r}: {case['entry'][3:]}({case['path']!r}) -> outcome {outcome}")
+        for pr in problems:
+            print("replay: STILL FAILS", pr)
+        if not problems:
+            print("replay: passes now")
+        return 1 if problems else 0
     if case.get("history"):
         h = case["history"]
         wsp = pathaudit.history_workspace(os.path.join(ctx.scratch, "ws-replay-history"), with_table=(h["handle"] == "table"))
